@@ -478,7 +478,8 @@ def tangents(at, cmap=None):
 class Labelling:
     """how the realisation numbers and stores things (environment choices, not data)"""
 
-    def __init__(self, vmap=None, emap=None, cmap_ids=None, cell_order=None, shifts=None, flips=None, eflip=None, vorder=None):
+    def __init__(self, vmap=None, emap=None, cmap_ids=None, cell_order=None, shifts=None, flips=None, eflip=None, vorder=None, eorder=None):
+        self.eorder = eorder          # order in which mesh edges are INSERTED into the dict: None (natural) | "id" | "rev" | ["rot", n]
         self.vorder = vorder          # order in which vertices are INSERTED into the dict: None (natural) | "id" (ascending new id) | "rev" | ["rot", n]
         self.vmap = vmap              # ["id"] | ["rev"] | ["gap", mul, add] | ["off", n] | ["swap", i, j] | ["perm", [...]]
         self.emap = emap
@@ -491,7 +492,7 @@ class Labelling:
     @staticmethod
     def from_json(d):
         d = d or {}
-        return Labelling(d.get("vmap"), d.get("emap"), d.get("cids"), d.get("order"), d.get("shifts"), d.get("flips"), d.get("eflip"), d.get("vorder"))
+        return Labelling(d.get("vmap"), d.get("emap"), d.get("cids"), d.get("order"), d.get("shifts"), d.get("flips"), d.get("eflip"), d.get("vorder"), d.get("eorder"))
 
 
 def _idmap(spec, n):
@@ -562,7 +563,16 @@ def realise(at, k=3, cmap=None, lab=None, post=None):
             segs.append((ch[m], ch[m + 1]))
     em = _idmap(lab.emap, len(segs))
     edges = {}
-    for n, (u, v) in enumerate(segs):
+    eins = list(range(len(segs)))
+    if lab.eorder == "id":
+        eins.sort(key=lambda n: em[n])
+    elif lab.eorder == "rev":
+        eins.reverse()
+    elif isinstance(lab.eorder, (list, tuple)) and lab.eorder and lab.eorder[0] == "rot":
+        r_ = lab.eorder[1] % max(len(segs), 1)
+        eins = eins[r_:] + eins[:r_]
+    for n in eins:
+        u, v = segs[n]
         flip = lab.eflip == "all" or (lab.eflip == "alt" and n % 2 == 1)
         if flip:
             u, v = v, u
